@@ -42,10 +42,11 @@ func init() {
 			{Name: "router-mutates-message", File: "floodsub.go", Old: "func (fs *FloodSubRouter) Publish(msg *Message) {\n", New: "func (fs *FloodSubRouter) Publish(msg *Message) {\n\tif msg.Message.Key != nil && len(msg.Message.Key) == 0 {\n\t\tmsg.Message.Key = nil\n\t}\n", Expect: "R03.6"},
 		}})
 	register(&Property{ID: "C16", Run: runC16,
-		Explain: "Structural necessary conditions of C16: (R16.1) shouldPush admits a message only on the false edges of blacklist.Contains(forwarder) and blacklist.Contains(author), and remote messages reach pushMsg only through shouldPush; (R16.2) the blacklistPeer arm of the event loop always calls blacklist.Add and, when a queue exists, closes it, deletes it from p.peers, clears topic state and notifies the router; (R16.3) the newPeerStream arm sends the hello packet only on the false edge of blacklist.Contains and on the true edge closes/removes the queue and resets the stream; handlePendingPeers creates a queue only on the false edge; (R16.4) every outbound push takes its queue from p.peers (lookup/range) in the same event-loop step; (R16.5) both Blacklist implementations use the same key in Add and Contains. NOT decided: messages already inside the validation pipeline at the moment of blacklisting, expiry of the time-cached blacklist.",
+		Explain: "Structural necessary conditions of C16: (R16.1) shouldPush admits a message only on the false edges of blacklist.Contains(forwarder) and blacklist.Contains(author), and remote messages reach pushMsg only through shouldPush; (R16.2) the blacklistPeer arm of the event loop always calls blacklist.Add and, when a queue exists, closes it, deletes it from p.peers, clears topic state and notifies the router; (R16.3) the newPeerStream arm sends the hello packet only on the false edge of blacklist.Contains and on the true edge closes/removes the queue and resets the stream; handlePendingPeers creates a queue only on the false edge; (R16.4) every outbound push takes its queue from p.peers (lookup/range) in the same event-loop step; (R16.5) both Blacklist implementations use the same key in Add and Contains; (R16.6) a message that was inside the validation pipeline when its forwarder or author was blacklisted is not delivered: the sendMsg arm of the event loop reaches publishMessage only on the false edges of blacklist.Contains(ReceivedFrom) and Contains(author); (shared R15.5/R15.6) a closed queue hands out nothing, even with a backlog, and the writer leaves on the error. NOT decided: expiry of the time-cached blacklist; messages a validation worker hands to the event loop in the same instant the blacklisting is processed are ordered by the loop's select (either order satisfies the property).",
 		Assume:  []string{"the event loop is single-threaded (processLoop owns p.peers)"},
 		Mutants: []Mutant{
-			{Name: "shouldPush-skip-author-blacklist", File: "pubsub.go", Old: "\tif p.blacklist.Contains(msg.GetFrom()) {", New: "\tif p.blacklist.Contains(msg.GetFrom()) && msg.GetFrom() != src {", Expect: "R16.1"},
+			{Name: "no-recheck-after-validation", File: "pubsub.go", Old: "\t\t\tif p.blacklist.Contains(msg.ReceivedFrom) {\n\t\t\t\tp.logger.Debug(\"dropping validated message from blacklisted peer\"", New: "\t\t\tif false && p.blacklist.Contains(msg.ReceivedFrom) {\n\t\t\t\tp.logger.Debug(\"dropping validated message from blacklisted peer\"", Expect: "R16.6"},
+			{Name: "shouldPush-skip-author-blacklist", File: "pubsub.go", Old: "\t// even if they are forwarded by good peers\n\tif p.blacklist.Contains(msg.GetFrom()) {", New: "\t// even if they are forwarded by good peers\n\tif p.blacklist.Contains(msg.GetFrom()) && msg.GetFrom() != src {", Expect: "R16.1"},
 			{Name: "blacklist-arm-no-router-notify", File: "pubsub.go", Old: "\t\t\t\tp.clearPeerFromTopicsState(pid)\n\t\t\t\tp.rt.OnClosedOutboundStream(pid)\n\t\t\t}\n\n\t\tcase <-ctx.Done():", New: "\t\t\t\tp.clearPeerFromTopicsState(pid)\n\t\t\t}\n\n\t\tcase <-ctx.Done():", Expect: "R16.2"},
 			{Name: "blacklist-arm-skip-when-already-listed", File: "pubsub.go", Old: "\t\t\tp.blacklist.Add(pid)\n\n\t\t\tq, ok := p.peers[pid]", New: "\t\t\tif !p.blacklist.Add(pid) {\n\t\t\t\tcontinue\n\t\t\t}\n\n\t\t\tq, ok := p.peers[pid]", Expect: "R16.2"},
 			{Name: "closed-stream-mesh-removal-conditional", File: "gossipsub.go", Old: "\tdelete(gs.peers, p)\n\tfor topic, peers := range gs.mesh {", New: "\tif _, known := gs.peers[p]; !known {\n\t\treturn\n\t}\n\tdelete(gs.peers, p)\n\tfor topic, peers := range gs.mesh {", Expect: "R07.5"},
@@ -623,6 +624,57 @@ func runC16(c *RuleCtx) {
 		ka, kc := keyExprOf(p, add), keyExprOf(p, con)
 		c.Check(ka != "" && ka == kc, "R16.5", impl, "Add and Contains use the same key", add.Decl, "key expression: "+ka, "Add keys by "+ka+" but Contains keys by "+kc)
 	}
+	// R16.6 messages that were inside the validation pipeline when their sender or author was blacklisted: the
+	// only way a validated remote message re-enters delivery is the sendMsg arm of the event loop (R02.2), and
+	// that arm calls publishMessage only on the false edges of blacklist.Contains(ReceivedFrom) and Contains(author)
+	if f := c.MustFn("R16.6", fnProcessLoop); f != nil {
+		blSrc := AtomBool("blacklist.Contains(ReceivedFrom)", func(v *V) bool {
+			return v.IsCall(fnBLContains) && len(v.Args) == 2 && v.Args[1].IsField("Message.ReceivedFrom")
+		})
+		blFrom := AtomBool("blacklist.Contains(GetFrom())", func(v *V) bool {
+			return v.IsCall(fnBLContains) && len(v.Args) == 2 && stripConv(v.Args[1]).IsCall(fnMsgGetFrom)
+		})
+		n := 0
+		for _, cs := range p.Sites(f, false, fnPublishMsg) {
+			// the call in the arm that receives from PubSub.sendMsg
+			cc, _ := p.Enclosing(cs.Call, func(x ast.Node) bool { _, ok := x.(*ast.CommClause); return ok }, true).(*ast.CommClause)
+			if cc == nil || cc.Comm == nil {
+				continue
+			}
+			isSendMsgArm := false
+			ast.Inspect(cc.Comm, func(x ast.Node) bool {
+				if u, ok := x.(*ast.UnaryExpr); ok && u.Op.String() == "<-" && p.R(f).Val(u.X).IsField("PubSub.sendMsg") {
+					isSendMsgArm = true
+				}
+				return true
+			})
+			if !isSendMsgArm {
+				continue
+			}
+			n++
+			ok, why := p.DomAny(f, cs.Call, AtomWant{blSrc, false})
+			c.Check(ok, "R16.6", f.Name, "validated message delivered only if its forwarder is not blacklisted", cs.Call, why, "a message that was being validated when its forwarder was blacklisted is still delivered and forwarded: "+why)
+			ok, why = p.DomAny(f, cs.Call, AtomWant{blFrom, false})
+			c.Check(ok, "R16.6", f.Name, "validated message delivered only if its author is not blacklisted", cs.Call, why, "a message that was being validated when its author was blacklisted is still delivered and forwarded: "+why)
+		}
+		if n == 0 {
+			c.Undecided("R16.6", f.Name, "sendMsg arm", f.Decl, "no publishMessage call in the arm receiving from PubSub.sendMsg")
+		}
+	}
+	// "nothing further is sent" after the queue was closed rests on the queue itself: a closed queue hands out
+	// nothing (even with a backlog) and the writer leaves on the error — decided under C15, re-evaluated here
+	{
+		sub := &RuleCtx{P: c.P, Prop: c.Prop, Min: map[string]int{}}
+		runC15(sub)
+		for _, o := range sub.Obs {
+			if o.Rule == "R15.5" || o.Rule == "R15.6" {
+				c.Obs = append(c.Obs, o)
+			}
+		}
+		c.Min["R15.5"] = 9
+		c.Min["R15.6"] = 2
+	}
+	c.Min["R16.6"] = 2
 	c.Min["R16.1"] = 4
 	c.Min["R16.2"] = 6
 	c.Min["R07.5"] = 4
